@@ -277,6 +277,7 @@ func init() {
 				theHTTPEnv.b.Close()
 				theHTTPEnv = nil
 			}
+			RemovePrivateLpg()
 		}()
 		ins, err := func() ([]json.RawMessage, error) {
 			if c.Replay != "" {
